@@ -120,8 +120,78 @@ fn cohort_row(n_samples: usize, t: usize, a: usize) -> Vec<genotype::Result> {
     row
 }
 
-fn eval_cohort(n_samples: usize, m: usize) -> (u64, Vec<Viol>) {
+/// One record with `t` called chromosomes of which `a` are ALT, among `n_samples` samples of one
+/// population, projected to `m` chromosomes: every entry against the exact kernel.
+fn eval_one(n_samples: usize, t: usize, a: usize, m: usize, what: &str) -> Option<Viol> {
     let map: Vec<Option<usize>> = vec![Some(0); n_samples];
+    let row = cohort_row(n_samples, t, a);
+    let got = build_site_reader(Box::new(MemReader::new(n_samples, vec![row])), &map, Some(&[m + 1])).and_then(|mut r| run_reader(&mut r));
+    let expect: Vec<f64> = (0..=m).map(|k| hyper_exact(t as u64, a as u64, m as u64, k as u64)).collect();
+    let case = J::obj([
+        ("kind", J::s("c02-triple")),
+        ("what", J::s(what)),
+        ("samples", J::u(n_samples)),
+        ("called_chromosomes", J::u(t)),
+        ("alt", J::u(a)),
+        ("target_chromosomes", J::u(m)),
+    ]);
+    let size_class = if t >= 1030 { "t>=1030" } else if t > 170 { "170<t<1030" } else { "t<=170" };
+    match got {
+        Ok(g) => {
+            let finite = g.spectrum.data.iter().all(|v| v.is_finite());
+            let ok = g.skipped == 0
+                && g.spectrum.data.len() == expect.len()
+                // one record, one population: every entry is a single pmf value, so the comparison is
+                // relative even for the far tails (a contribution of 1e-200 must not be dropped)
+                && g.spectrum.data.iter().zip(&expect).all(|(x, r)| crate::refmodel::close(*x, *r, 1e-8, 1e-300));
+            if !ok {
+                let at = g.spectrum.data.iter().zip(&expect).position(|(x, r)| !crate::refmodel::close(*x, *r, 1e-8, 1e-300));
+                return Some((
+                    format!("C02|lib|{what}-{}|{size_class}", if finite { "wrong" } else { "non-finite" }),
+                    format!(
+                        "{n_samples} samples, record with {t} called chromosomes ({a} ALT) projected to {m}: skipped={} mass={} first differing cell {:?}: {:?} vs reference {:?}",
+                        g.skipped,
+                        g.spectrum.sum(),
+                        at,
+                        at.map(|i| g.spectrum.data[i]),
+                        at.map(|i| expect[i]),
+                    ),
+                    case,
+                ));
+            }
+            None
+        }
+        Err(e) => Some((
+            format!("C02|lib|{what}-failed|{size_class}|{}", norm_msg(&e)),
+            format!("{n_samples} samples, t={t}, a={a}, m={m}: {e}"),
+            case,
+        )),
+    }
+}
+
+/// Every (ALT count, target) pair for one number of called chromosomes.
+fn eval_triples(t: usize) -> (u64, Vec<Viol>) {
+    // one or two uncalled samples next to the called ones
+    let n_samples = t / 2 + 1 + (t / 2) % 2;
+    let mut viols = Vec::new();
+    let mut evals = 0;
+    for m in 1..=t {
+        for a in 0..=t {
+            evals += 1;
+            if viols.len() < 4 {
+                if let Some(v) = eval_one(n_samples, t, a, m, "triple") {
+                    viols.push(v);
+                }
+            }
+        }
+        if viols.len() >= 4 {
+            break;
+        }
+    }
+    (evals, viols)
+}
+
+fn eval_cohort(n_samples: usize, m: usize) -> (u64, Vec<Viol>) {
     let full = 2 * n_samples;
     let mut ts: Vec<usize> = vec![m + (m % 2), m + (m % 2) + 2, full - 2, full];
     ts.retain(|t| *t >= m && *t <= full && t % 2 == 0);
@@ -137,44 +207,8 @@ fn eval_cohort(n_samples: usize, m: usize) -> (u64, Vec<Viol>) {
         alts.dedup();
         for a in alts {
             evals += 1;
-            let row = cohort_row(n_samples, t, a);
-            let got = build_site_reader(Box::new(MemReader::new(n_samples, vec![row])), &map, Some(&[m + 1])).and_then(|mut r| run_reader(&mut r));
-            let expect: Vec<f64> = (0..=m).map(|k| hyper_exact(t as u64, a as u64, m as u64, k as u64)).collect();
-            let case = J::obj([
-                ("kind", J::s("c02-cohort")),
-                ("samples", J::u(n_samples)),
-                ("called_chromosomes", J::u(t)),
-                ("alt", J::u(a)),
-                ("target_chromosomes", J::u(m)),
-            ]);
-            let size_class = if t >= 1030 { "t>=1030" } else if t > 170 { "170<t<1030" } else { "t<=170" };
-            match got {
-                Ok(g) => {
-                    let finite = g.spectrum.data.iter().all(|v| v.is_finite());
-                    let ok = g.skipped == 0
-                        && g.spectrum.data.len() == expect.len()
-                        // one record, one population: every entry is a single pmf value, so the comparison is
-                        // relative even for the far tails (a contribution of 1e-200 must not be dropped)
-                        && g.spectrum.data.iter().zip(&expect).all(|(x, r)| crate::refmodel::close(*x, *r, 1e-8, 1e-300));
-                    if !ok {
-                        viols.push((
-                            format!("C02|lib|cohort-{}|{size_class}", if finite { "wrong" } else { "non-finite" }),
-                            format!(
-                                "{n_samples} samples, record with {t} called chromosomes ({a} ALT) projected to {m}: skipped={} mass={} first cells {:?}, reference {:?}",
-                                g.skipped,
-                                g.spectrum.sum(),
-                                &g.spectrum.data[..g.spectrum.data.len().min(3)],
-                                &expect[..expect.len().min(3)]
-                            ),
-                            case,
-                        ));
-                    }
-                }
-                Err(e) => viols.push((
-                    format!("C02|lib|cohort-failed|{size_class}|{}", norm_msg(&e)),
-                    format!("{n_samples} samples, t={t}, a={a}, m={m}: {e}"),
-                    case,
-                )),
+            if let Some(v) = eval_one(n_samples, t, a, m, "cohort") {
+                viols.push(v);
             }
         }
     }
@@ -380,6 +414,27 @@ pub fn run(tier: Tier) -> i32 {
         extra: vec![],
     });
 
+    // every triple: the kernel has size thresholds in the code (exact paths for small sizes, tables
+    // up to 170!, log-space above) that boundary grids can straddle without touching
+    let t_max = tier.pick(200usize, 400usize);
+    let ts: Vec<usize> = (1..=t_max / 2).map(|h| 2 * h).rev().collect();
+    let res = par_map(ts.len(), |i| eval_triples(ts[i]));
+    let mut ev = 0;
+    for (e, v) in res {
+        ev += e;
+        for (k, w, j) in v {
+            rep.violation(k, w, j);
+        }
+    }
+    rep.part(Part {
+        name: "lib: every (called, ALT, target) triple of one population".into(),
+        evaluations: ev,
+        nontrivial: ev,
+        note: format!("every even number of called chromosomes t in 2..={t_max} (one or two further samples uncalled) x every ALT count a in 0..=t x every target m in 1..=t, one record each, every entry of the projected row against the exact kernel"),
+        exhaustive: true,
+        extra: vec![],
+    });
+
     // L2
     let scratch = Scratch::new("c02");
     let rows = l2_rows();
@@ -451,6 +506,14 @@ pub fn replay(case: &J) -> Option<Vec<String>> {
             let n = case.get("samples")?.as_i64()? as usize;
             let m = case.get("target_chromosomes")?.as_i64()? as usize;
             Some(eval_cohort(n, m).1.into_iter().map(|(k, w, _)| format!("{k} :: {w}")).collect())
+        }
+        "c02-triple" => {
+            let n = case.get("samples")?.as_i64()? as usize;
+            let t = case.get("called_chromosomes")?.as_i64()? as usize;
+            let a = case.get("alt")?.as_i64()? as usize;
+            let m = case.get("target_chromosomes")?.as_i64()? as usize;
+            let what = case.get("what")?.as_str()?.to_string();
+            Some(eval_one(n, t, a, m, &what).into_iter().map(|(k, w, _)| format!("{k} :: {w}")).collect())
         }
         "c02-cli" => {
             let argv: Vec<String> = case.get("argv")?.as_arr()?.iter().filter_map(|x| x.as_str().map(|s| s.to_string())).collect();
